@@ -43,3 +43,75 @@ def nontrivial_world(c):
             m = s["z"]["m"]
             return len(set(m)) < len(m) or any(c2["op"] == "mask" for c2 in c["steps"])
     return False
+
+
+ALL_FINAL_SEQS = gen.RESOLVER_SEQS + gen.PLAIN_SEQS + [
+    [gen.op_single(), gen.op_pflood()],
+    [gen.op_multi(4), gen.op_pflood(), gen.op_single()],
+    [gen.op_single(), gen.op_mst("kruskal", "basic"), gen.op_multi(4)],
+    [gen.op_pflood(), gen.op_single(), gen.op_mst("boruvka", "basic"), gen.op_multi(8)],
+]
+
+
+def router_cases(seed, count, max_side, tag, multi=False):
+    """Routers on raw integer fields (exact slope arithmetic): anisotropic integer spacings,
+    scaled fields, wrap-around borders, meshes with integer coordinates."""
+    rng = random.Random(seed)
+    for i in range(count):
+        g = gen.rand_grid(rng, max_side=max_side, kinds=("raster", "raster", "raster", "profile", "mesh"),
+                          spacings=(1, 1, 2, 3, 5))
+        n = gen.grid_size(g)
+        fam = rng.choice(["tied", "tied3", "distinct", "wide", "bowl", "sub", "huge", "neg", "flat"])
+        if fam == "wide":
+            z = dict(k="int", m=[rng.randint(0, 16 if multi else 4000) for _ in range(n)], e=rng.choice([0, -20, 30]))
+        else:
+            z = gen.rand_field(rng, g, fam)
+        mask, bl = gen.rand_mask_bl(rng, g)
+        steps = []
+        if multi:
+            seqs = [[gen.op_multi(rng.choice([0, 4, 8]))], [gen.op_pflood(), gen.op_multi(4)],
+                    [gen.op_single(), gen.op_mst("kruskal", "carve"), gen.op_multi(rng.choice([0, 4, 8, 120]))]]
+        else:
+            seqs = [[gen.op_single()], [gen.op_pflood(), gen.op_single()]]
+        for k, ops in enumerate(seqs):
+            steps += steps_for_graph(k, ops, mask, bl, z)
+            if multi:
+                # the exponent is changed between successive updates on the same graph object
+                midx = [j for j, o in enumerate(ops) if o["k"] == "multi"][0]
+                for p in rng.sample([0, 4, 8, 6, 120], 2):
+                    steps.append(dict(op="param", g=k, i=midx, p=p))
+                    steps.append(dict(op="update", g=k, z=z))
+            steps.append(dict(op="drop", g=k))
+        yield flow_case("%s-%d-%d" % (tag, seed, i), g, steps)
+
+
+def state_cases(seed, count, max_side, tag, extra="none"):
+    """Every kind of final state (all operator sequences), repeated updates on one object,
+    followed by accumulate / basins calls when asked."""
+    rng = random.Random(seed)
+    for i in range(count):
+        g, z, mask, bl = _world(rng, max_side)
+        n = gen.grid_size(g)
+        z2 = gen.rand_field(rng, g)
+        seqs = rng.sample(ALL_FINAL_SEQS, 6)
+        steps = []
+        for k, ops in enumerate(seqs):
+            single = all(o["k"] != "multi" for o in ops)
+            ex = []
+            if extra == "basins" and single:
+                ex = [dict(op="basins", g=k)]
+            if extra == "acc":
+                if single:
+                    srcs = [[rng.randint(0, 5) for _ in range(n)], [rng.randint(-3, 3) for _ in range(n)],
+                            [rng.choice([0, 2])] * n]
+                    u = rng.randrange(n)
+                    srcs.append([1 if j == u else 0 for j in range(n)])
+                else:
+                    srcs = [[rng.randint(0, 3) for _ in range(n)], [1] * n]
+                ex = [dict(op="acc", g=k, src=s, K=0 if single else 12) for s in srcs]
+            steps += steps_for_graph(k, ops, mask, bl, z, ex)
+            # second update of the same object with another field, then the same calls again
+            steps.append(dict(op="update", g=k, z=z2))
+            steps += ex
+            steps.append(dict(op="drop", g=k))
+        yield flow_case("%s-%d-%d" % (tag, seed, i), g, steps)
